@@ -21,6 +21,10 @@ const modPath = "github.com/google/pprof"
 const contractFileName = "zz_verif_contracts.go"
 
 type Prog struct {
+	detCache   map[*ssa.Function]bool
+	capPass    *ssa.Function
+	capOnly    map[*ssa.Function]map[string][]int
+	immGlobals map[*ssa.Global]bool
 	Fset      *token.FileSet
 	Pkgs      []*packages.Package
 	SSA       *ssa.Program
